@@ -516,6 +516,70 @@ fn run_paced(server: &'static str, addr: std::net::SocketAddr, reqs: &[Req]) -> 
     out
 }
 
+// ------------------------------------------------------------------ several frames in one burst
+
+/// Groups of three requests written to the socket in ONE write, sizes descending (a big frame first, so a
+/// reused read buffer is warm and roomy when the small ones follow), ascending, and big-small-big: each of
+/// the three is parsed as sent and answered in order, like the same requests sent one at a time.
+fn run_burst(server: &'static str, addr: std::net::SocketAddr, reqs: &[Req]) -> Out {
+    let mut out = Out { bad: Vec::new(), tally: Tally::default(), machinery: None, reconnects: 0 };
+    let mut by_size: Vec<&Req> = reqs.iter().filter(|r| r.h.notify == 0).collect();
+    by_size.sort_by_key(|r| std::cmp::Reverse(r.wire().len()));
+    let n = by_size.len();
+    if n < 6 {
+        out.machinery = Some("burst rows: fewer than 6 requests".into());
+        return out;
+    }
+    let mut groups: Vec<Vec<&Req>> = Vec::new();
+    for k in 0..(n / 3).min(8) {
+        let (big, mid, small) = (by_size[k], by_size[n / 2 + k % (n / 4).max(1)], by_size[n - 1 - k]);
+        groups.push(vec![big, mid, small]);
+        groups.push(vec![small, mid, big]);
+        groups.push(vec![big, small, big]);
+    }
+    for g in groups {
+        let mut s = match tcp_connect(addr) {
+            Ok(s) => s,
+            Err(e) => {
+                out.machinery = Some(e);
+                return out;
+            }
+        };
+        let burst: Vec<u8> = g.iter().flat_map(|r| r.wire()).collect();
+        let sizes: Vec<usize> = g.iter().map(|r| r.wire().len()).collect();
+        let mut first = tcp_exchange(&mut s, &burst);
+        for (i, req) in g.iter().enumerate() {
+            out.tally.states += 1;
+            let x = if i == 0 { std::mem::replace(&mut first, Xfer::Timeout) } else { tcp_exchange(&mut s, &[]) };
+            let mut case = req.to_json(server);
+            case["burst_sizes"] = json!(sizes);
+            case["position_in_burst"] = json!(i);
+            match x {
+                Xfer::Frame(f) => {
+                    if let Some(mut b) = compare(server, req, &f, &mut out.tally) {
+                        b.key = b.key.replacen("C01:server:", "C01:server-burst:", 1);
+                        b.what = format!("requests of {sizes:?} bytes written in one burst, response #{i}: {}", b.what);
+                        out.bad.push((b, case));
+                    }
+                }
+                Xfer::BadHeader(h) => {
+                    out.bad.push((Bad { key: format!("C01:server-burst:{server}:bad-response-header"), what: format!("requests of {sizes:?} bytes written in one burst: response #{i} starts with {h:02x?}") }, case));
+                    break;
+                }
+                Xfer::Timeout => {
+                    out.bad.push((Bad { key: format!("C01:server-burst:{server}:no-response"), what: format!("requests of {sizes:?} bytes written in one burst: no complete response #{i} within {WATCHDOG:?}") }, case));
+                    break;
+                }
+                Xfer::Closed(e) => {
+                    out.bad.push((Bad { key: format!("C01:server-burst:{server}:connection-lost"), what: format!("requests of {sizes:?} bytes written in one burst: the connection was dropped before response #{i} ({e})") }, case));
+                    break;
+                }
+            }
+        }
+    }
+    out
+}
+
 // ------------------------------------------------------------------ WebSocket over an in-memory duplex
 
 fn run_ws(server: &'static str, reqs: &[Req]) -> Out {
@@ -600,7 +664,7 @@ pub struct SrvOut {
 }
 
 const SERVERS: [&str; 4] = ["Server", "AsyncServer", "WebSocketServer[inline]", "WebSocketServer[off-reader]"];
-const PACED_SERVERS: [&str; 2] = ["Server[paced]", "AsyncServer[paced]"];
+const PACED_SERVERS: [&str; 4] = ["Server[paced]", "AsyncServer[paced]", "Server[burst]", "AsyncServer[burst]"];
 
 fn run_one(server: &'static str, tier: Tier) -> Out {
     match server {
@@ -618,6 +682,14 @@ fn run_one(server: &'static str, tier: Tier) -> Out {
         },
         "AsyncServer[paced]" => match start_async_server() {
             Ok(addr) => run_paced("AsyncServer", addr, &requests(tier, false)),
+            Err(e) => Out { bad: Vec::new(), tally: Tally::default(), machinery: Some(e), reconnects: 0 },
+        },
+        "Server[burst]" => match start_sync_server() {
+            Ok(addr) => run_burst("Server", addr, &requests(tier, false)),
+            Err(e) => Out { bad: Vec::new(), tally: Tally::default(), machinery: Some(e), reconnects: 0 },
+        },
+        "AsyncServer[burst]" => match start_async_server() {
+            Ok(addr) => run_burst("AsyncServer", addr, &requests(tier, false)),
             Err(e) => Out { bad: Vec::new(), tally: Tally::default(), machinery: Some(e), reconnects: 0 },
         },
         "WebSocketServer[inline]" => run_ws("WebSocketServer[inline]", &requests(tier, false)),
@@ -685,7 +757,7 @@ pub fn run_all(ctx: &Ctx, tier: Tier, samples: &Samples) -> SrvOut {
         planned: (SERVERS.len() * n_req) as u64 + paced_states,
         bound: json!({"servers": SERVERS, "requests_per_server": n_req, "handler_templates": TPL_NAMES, "path_lengths": PATH_LENS,
                       "builtin_routes": ["with_json", "with_json_blocking", "with_typed_slice<f64,f64>", "method-not-found"],
-                      "rule": "templates x path lengths x body lengths (x header variants cycling id/body_format/reserved/ec classes), one request at a time on one connection per server; then EOF/close with no further bytes; paced rows (Server, AsyncServer): four request shapes x split positions {1, 47, 48, 49, after the query, len-1}, each sent as two bursts 1250 ms apart on its own connection"}),
+                      "rule": "templates x path lengths x body lengths (x header variants cycling id/body_format/reserved/ec classes), one request at a time on one connection per server; then EOF/close with no further bytes; paced rows (Server, AsyncServer): four request shapes x split positions {1, 47, 48, 49, after the query, len-1}, each sent as two bursts 1250 ms apart on its own connection; burst rows (Server, AsyncServer): groups of three requests written in one write (sizes descending, ascending, big-small-big), each answered in order"}),
         nonvacuity: Value::Object(nv),
     }
 }
@@ -695,9 +767,10 @@ pub fn run_all(ctx: &Ctx, tier: Tier, samples: &Samples) -> SrvOut {
 /// server and connection are needed anyway.
 pub fn replay(case: &Value) -> Result<Vec<Bad>, String> {
     let name = case["server"].as_str().ok_or("server")?;
-    let paced = case.get("split_at").is_some();
+    let paced = case.get("split_at").is_some() || case.get("burst_sizes").is_some();
     let s = if paced {
-        PACED_SERVERS.iter().copied().find(|s| s.starts_with(&format!("{name}["))).ok_or("unknown server")?
+        let tag = if case.get("split_at").is_some() { "[paced]" } else { "[burst]" };
+        PACED_SERVERS.iter().copied().find(|s| *s == format!("{name}{tag}")).ok_or("unknown server")?
     } else {
         SERVERS.iter().copied().find(|s| *s == name).ok_or("unknown server")?
     };
